@@ -557,6 +557,15 @@ def handleTop (st : DrvState) (op : String) : P String :=
       let r := runMain st.env a w
       pure ("ok " ++ outText r.stdout ++ " " ++ outNum r.diagnostics ++ " " ++ outOpt outText r.message ++ " " ++ outNum r.exit
         ++ " " ++ outWorld r.world)
+  | "runmainbmc" => do
+      -- inside a BMC: `runmainbmc <-A given> <Args tokens> <logs files> <log subdirs> <archive files?> <archive subdirs> <-f content?> <exclude?> <-o files?>`
+      let archive ← pBool; let a ← pArgs
+      let logs ← pList pFileEntry; let logSubdirs ← pList pText; let arch ← pOpt (pList pFileEntry); let archiveSubdirs ← pList pText
+      let file ← pOpt pBytes; let exclude ← pOpt pText; let out ← pOpt (pList pFileEntry); pEnd
+      let r := runMainBmc st.env a archive { logs, logSubdirs, archive := arch, archiveSubdirs, file, exclude, out }
+      pure ("ok " ++ outText r.stdout ++ " " ++ outNum r.diagnostics ++ " " ++ outOpt outText r.message ++ " " ++ outNum r.exit
+        ++ " " ++ " ".intercalate [outDirFiles r.world.logs, outList outText r.world.logSubdirs, outOpt outDirFiles r.world.archive,
+          outList outText r.world.archiveSubdirs, outOpt outBytes r.world.file, outOpt outText r.world.exclude, outOpt outDirFiles r.world.out])
   | _ => failure
 
 def handleLine (st : DrvState) (line : String) : DrvState × String :=
